@@ -49,6 +49,7 @@ type FnSpec struct {
 }
 
 type GhostHook struct {
+	Preserves []Clause // after-call hooks: expressions the call is assumed not to change
 	When   string // "before" | "after"
 	Callee string // callee name with ordinal, e.g. "fn#0"
 	Assert []Clause
@@ -275,15 +276,20 @@ func (cs *ContractSet) LoadContractFile(path, pkgPath string) error {
 				cur.AssumeFrame = true
 			}
 		case "preserves":
-			if curFnSpec == nil {
-				return fail(ll.line, "preserves outside an fnspec block")
+			if curFnSpec == nil && curHook == nil {
+				return fail(ll.line, "preserves outside an fnspec or after-call block")
 			}
 			for _, part := range splitCommaTop(rest) {
 				ex, err := ParseExpr(part)
 				if err != nil {
 					return fail(ll.line, "%v in preserves %q", err, part)
 				}
-				curFnSpec.Preserves = append(curFnSpec.Preserves, Clause{Label: shortLabel(strings.TrimSpace(part)), E: ex, Src: strings.TrimSpace(part)})
+				cl := Clause{Label: shortLabel(strings.TrimSpace(part)), E: ex, Src: strings.TrimSpace(part)}
+				if curFnSpec != nil {
+					curFnSpec.Preserves = append(curFnSpec.Preserves, cl)
+				} else {
+					curHook.Preserves = append(curHook.Preserves, cl)
+				}
 			}
 		case "requires", "ensures", "invariant", "assert", "assume", "wakes":
 			label := ""
